@@ -539,8 +539,16 @@ func TestVerif_C03_MisbehavingPeer(t *testing.T) {
 					}
 					lbl["use-candidate-behind-integrity"] = true
 				}
-				s.peerRequestTrailing(ep, to, use, nil, prio, peerRole, 12345, trailing)
-				s.ops = append(s.ops, fmt.Sprintf("peerRequest(%s→%s use=%v prio=%d trailing=%d)", ep.name(), to.name(), use, prio, len(trailing)))
+				// a peer that uses renomination: values in any order (older or equal ones are to be refused,
+				// which must not make a lite agent originate anything)
+				var nomv *uint32
+				if use && rapid.IntRange(0, 3).Draw(rt, "withNomination") == 0 {
+					v := rapid.SampledFrom([]uint32{1, 2, 3, 3, 5, 9}).Draw(rt, "nominationValue")
+					nomv = &v
+					lbl["nomination-values"] = true
+				}
+				s.peerRequestTrailing(ep, to, use, nomv, prio, peerRole, 12345, trailing)
+				s.ops = append(s.ops, fmt.Sprintf("peerRequest(%s→%s use=%v nom=%s prio=%d trailing=%d)", ep.name(), to.name(), use, fmtU32(nomv), prio, len(trailing)))
 			case "answer", "dupAnswer":
 				reqs := s.agentRequests()
 				if len(reqs) == 0 {
